@@ -229,6 +229,15 @@ def run_task(task):
         return res
     res["obligations"] += 1
     if not ok:
+        # the program that was handed to HiGHS is the library's artefact: if z3 finds it feasible although HiGHS said
+        # infeasible, the solver (not flowpaths) is at fault -- outside the claim (DESIGN section 10), counted inconclusive
+        last = sess.snaps[-1]
+        if last.honest_status == "kInfeasible" and smt.feasible(last, timeout_ms=60000)[0] == "sat":
+            res["inconclusive"] += 1
+            res["extra"]["highs_declared_feasible_program_infeasible"] = res["extra"].get("highs_declared_feasible_program_infeasible", 0) + 1
+            if len(res["samples"]) < 2:
+                res["samples"].append({"note": "HiGHS (presolve) reported kInfeasible for a program that z3 proves feasible; not attributed to flowpaths", "instance": desc})
+            return res
         res["violations"].append({"signature": "MinErrorFlow:not-solved", "summary": f"{task['name']}: statuses {[lp.honest_status for lp in sess.snaps]}", "replay": {"task": task}})
         return res
     res["discharged"] += 1
